@@ -66,4 +66,4 @@ def confirm(rp, resp):
 def signature(c, rp, resp, text):
     import re
 
-    return {"env": rp.get("spec"), "variant": rp.get("variant"), "what": re.sub(r"row \d+|step \d+", "", text.split(":")[0])[:60].strip()}
+    return {"env": rp.get("spec"), "variant": rp.get("variant"), "what": re.sub(r"row \d+|step \d+", "", text.split(":")[0])[:60].strip(), "quotas_differ": _E.quotas_differ(rp)}
